@@ -45,7 +45,10 @@ func checkSignDecisionScope(c *Ctx, rule string) {
 		if len(fe) == 0 || len(wo) == 0 {
 			continue
 		}
-		sel := scopeVar(fe[0].Call.Args[2])
+		sel := ""
+		if a := p.argNamed(fe[0], "keyScope", 2); a != nil {
+			sel = scopeVar(a)
+		}
 		c.Check(rule, "coin-selection-scope-identified", fe[0].Pos(), sel != "", "cannot identify the key-scope variable passed to findEligibleOutputs (undecided)")
 		for _, call := range wo {
 			v := scopeVar(call.Call.Args[2])
